@@ -139,14 +139,19 @@ def Column.flexible (c : Column) : Bool := c.ratio.isSome
   repaired: `leading` separate blank separator lines.
 * `minWidthCapsExpand`: in `_calculate_column_widths` the pad target is `min(min_width - extra, max_width)`
   whenever `min_width` is set, even for an expanding table (so `expand=True, min_width=10` does not expand);
-  repaired: the target is `max_width` when the table expands. -/
+  repaired: the target is `max_width` when the table expands.
+* `fixedRawMaximum`: with ratio columns, the width reserved for the other columns is `sum(_range.maximum)` although
+  those columns get `_range.maximum or 1`; a column measuring 0 (empty cells, no padding) therefore pushes the table
+  one cell over, the collapse + re-measure then shrink the ratio columns to their content and the "expanding" table
+  ends up at its natural width; repaired: reserve `_range.maximum or 1`. -/
 structure Flags where
   leadingRepeat : Bool := true
   minWidthCapsExpand : Bool := true
+  fixedRawMaximum : Bool := true
 deriving Repr, DecidableEq
 
 def Flags.today : Flags := {}
-def Flags.repaired : Flags := { leadingRepeat := false, minWidthCapsExpand := false }
+def Flags.repaired : Flags := { leadingRepeat := false, minWidthCapsExpand := false, fixedRawMaximum := false }
 
 structure Table where
   columns : List Column
@@ -236,7 +241,7 @@ def Table.indexed (t : Table) : List (Column × Nat) := t.columns.zipIdx
 
 /-- First phase of `_calculate_column_widths`: measure every column at `max_width`, `maximum or 1`, and the
 flexible (ratio) columns of an expanding table.  `none` = `AssertionError` of `ratio_distribute`. -/
-def Table.firstWidths (t : Table) (maxWidth : Int) : Option (List Int) :=
+def Table.firstWidths (fl : Flags) (t : Table) (maxWidth : Int) : Option (List Int) :=
   let cols := t.indexed
   let ranges := cols.map (fun ci => t.measureColumn ci.2 ci.1 maxWidth)
   let widths := ranges.map (fun r => orOne r.maximum)
@@ -244,7 +249,7 @@ def Table.firstWidths (t : Table) (maxWidth : Int) : Option (List Int) :=
     let flex := cols.filter (fun ci => ci.1.flexible)
     let ratios := flex.map (fun ci => ci.1.ratio.getD 0)
     if ratios.any (· != 0) then
-      let fixed := (ranges.zip cols).map (fun rc => if rc.2.1.flexible then 0 else rc.1.maximum)
+      let fixed := (ranges.zip cols).map (fun rc => if rc.2.1.flexible then 0 else if fl.fixedRawMaximum then rc.1.maximum else orOne rc.1.maximum)
       let flexMinimum := flex.map (fun ci => orOne (ci.1.width.getD 0) + t.paddingWidth ci.2)
       let flexibleWidth := maxWidth - fixed.sum
       match ratioDistribute flexibleWidth ratios (some flexMinimum) with
@@ -301,7 +306,7 @@ def Table.padWidths (fl : Flags) (t : Table) (widths : List Int) (tableWidth max
 
 /-- `Table._calculate_column_widths(console, max_width)`; `none` = `AssertionError` from `ratio_distribute`. -/
 def Table.calcWidths (fl : Flags) (t : Table) (maxWidth : Int) : Option (List Int) :=
-  match t.firstWidths maxWidth with
+  match t.firstWidths fl maxWidth with
   | none => none
   | some widths =>
     if widths.sum > maxWidth then
